@@ -15,6 +15,7 @@ import (
 	"verif/mc/engines/e4"
 	"verif/mc/engines/e5"
 	"verif/mc/engines/e6"
+	"verif/mc/engines/e7"
 	"verif/mc/hx"
 )
 
@@ -113,6 +114,19 @@ func main() {
 			if err := ctx.Replay(*replay); err != nil {
 				fmt.Fprintln(os.Stderr, err)
 				os.Exit(3)
+			}
+		} else {
+			ctx.Run(*job, *tier)
+		}
+	case "e7":
+		ctx := &e7.Ctx{Rep: rep, Sh: sh, Deadline: deadline, WD: hx.NewWatchdog(rep, 120*time.Second)}
+		if *replay != "" {
+			if err := ctx.Replay(*job, *replay, *capS); err != nil {
+				fmt.Fprintln(os.Stderr, err)
+				os.Exit(3)
+			}
+			if *job == "race-child" {
+				return
 			}
 		} else {
 			ctx.Run(*job, *tier)
